@@ -447,7 +447,12 @@ let read_obs bs =
     | FOk (h, (rs, e)), Some (s, c) ->
         hdr_obs h s c ^ ";R=" ^ String.concat "!!" (List.map rec_str rs) ^ ";" ^ fend_str e
     | FOk _, None -> "Inconsistent") in
-  "E=" ^ one bcf_read_file ^ "|L=" ^ one bcf_read_file_lazy
+  (* NV.Bcf.FileLazyDomain.file_class: the header read back has no Character keys (compared with the
+     implementation's header); under it file_agree must hold (file_class_sound) *)
+  let ((nc, bl), ag) = file_class bs in
+  let ncs = (match nc with Some true -> "1" | Some false -> "0" | None -> "-") in
+  let a = if not bl then "NotBytes" else if nc = Some true && not ag then "AgreeViolated" else "ok" in
+  "E=" ^ one bcf_read_file ^ "|L=" ^ one bcf_read_file_lazy ^ "|NC=" ^ ncs ^ ";A=" ^ a
 let bf a =
   let h = vheader_of a in
   let rs = if a.(8) = "-" then [] else
